@@ -396,11 +396,13 @@ def systematic_histories(w):
     """For EVERY mutator call: fill the cache with the four full queries, mutate, then ask every query (every flavour,
     both platforms, both components).  Plus the same with MutateReturned after a cache hit and after a miss."""
     queries, muts = alphabet(w)
-    fill = [q for q in queries if q["x"] == "full"]
-    after = [q for q in queries if q["x"] != "full"] + fill + fill
+    full = [q for q in queries if q["x"] == "full"]
+    fill = full + [q for q in queries if q["x"] == "lenient"]         # every query that may store its answer
+    after = [q for q in queries if q["x"] not in ("full", "lenient")] + fill + fill
     hs = [fill + [m] + after for m in muts]
     hs.append(fill + [fill[0], MUTATE_RETURNED] + after)                 # scribble over the copy handed out on a hit
     hs.append([fill[1], MUTATE_RETURNED] + after)                        # ... and on a miss (the value that was stored)
+    hs.append(fill + [fill[-1], MUTATE_RETURNED] + after)                # ... and over a lenient answer taken from the cache
     hs.append(fill + [queries[1], MUTATE_RETURNED] + after)              # ... and over a raw result
     # a platform created on demand, through either scope, followed by the in-place getters of the other scope
     newp = L.PLATS[-1]
@@ -766,7 +768,7 @@ def _run_check(chk, tier, thorough, runner, sd):
                  ("prefix", 0, 3, "alias", alias)]
         sim_worlds, (nsim, depth) = ("prefix", "stage"), (60, 40)
         tr_plan = [("prefix", 0), ("prefix", 1), ("prefix", 2), ("stage", 0), ("loop", 1), ("plus", 0)]
-        ntr, ltr = 24, 40
+        ntr, ltr = 16, 40
     else:
         plan += [("prefix", 0, 3, "full", dict(everything, flavours=("full", "raw", "lenient", "noinj"))), ("prefix", 1, 3, "full", {}), ("prefix", 2, 3, "full", dict(plats=P3, **DERIVED))]
         plan += [("stage", b, 3, "full", {}) for b in (0, 1, 2)]
@@ -859,7 +861,13 @@ def _run_check(chk, tier, thorough, runner, sd):
     # verdict on model drift
     drift = stats.pop("_drift", [])
     keydrift = stats.pop("_keydrift", [])
-    faithful = [d for d in keydrift if selfhit[d[0]]]
+    # differences between the cached keys and the spec's are a NOTE: the property does not prescribe the cache's labelling; only
+    # answers (queries, cache entries under the documented labels, probes) decide
+    chk.cov["cache_key_notes"] = {"count": sum(st.get("drift", 0) for st in stats.values() if isinstance(st, dict)),
+                                  "examples": ["%s: %s" % (d[0], d[1]["what"][:300]) for d in keydrift[:5]]}
+    if keydrift:
+        print("note: the cached keys differ from the model's in %d histories (not a verdict), e.g. %s" % (chk.cov["cache_key_notes"]["count"], chk.cov["cache_key_notes"]["examples"][0]))
+    faithful = []
     chk.cov["worlds"] = {w: {"names": L.WORLDS[w]["names"], "stages": L.WORLDS[w]["stages"],
                              "invalidation_hits_observed": {k: sorted(v) for k, v in hits[w].items()},
                              "self_hit": selfhit[w], "invalidation_errors": hit_errors[w], **stats.get(w, {})} for w in worlds}
@@ -878,6 +886,7 @@ def _run_check(chk, tier, thorough, runner, sd):
         "one variable v, two components, platforms default and p1; options command.arguments and resourceRequest.numberProcesses",
         "FlowIRExperimentConfiguration is built once per (world, platform) and given the fresh FlowIRConcrete of each history (primitive=True)",
         "values passed to update_component/add_component are not modified by the caller afterwards (aliasing of arguments is not part of the property)",
+        "the cache is inspected under the documented labels component:<platform>:stage<i>:<name>; entries under any other label are noted and the answers of every cacheable query (full, lenient) are then probed after every call; differences between the cached keys and the model's are a note, never a verdict",
         "after a violation that is a named deviation of the code (ConfigCache.tla: Hits without self-hit, LenientPoisons) the stale entry is dropped and the history continues; any other violation ends the history",
     ]
     if drift or faithful:
